@@ -4,7 +4,8 @@
 set -e
 cd "$(dirname "$0")"
 export CARGO_NET_OFFLINE=true
-( cd coq && coq_makefile -f _CoqProject -o Makefile >/dev/null && timeout 3000 make -j16 2>&1 | grep -v "^COQC\|^COQDEP\|Closed under" | tail -20 )
+python3 tools/translate.py
+( cd coq && coq_makefile -f _CoqProject -o Makefile >/dev/null && timeout 3000 make -k -j16 2>&1 | grep -v "^COQC\|^COQDEP\|Closed under" | tail -20 )
 ( cd ocaml && ./build.sh )
 cp /repo/Cargo.lock harness/Cargo.lock
 ( cd harness && RUSTFLAGS="--cfg adf_obdd_verif" CARGO_TARGET_DIR="$PWD/target" cargo build --offline --quiet 2>&1 | grep -v "^warning\|^ *|\|^ *=\|^ *-->\|^$" | tail -5 || true )
